@@ -406,6 +406,8 @@ class Executor:
             else:
                 v = (1 << (w - 1)) if m.group(2) == "MIN" else (1 << (w - 1)) - 1
             return Sym(z3.BitVecVal(v, w), ty)
+        if s in ("RangeFull", "std::ops::RangeFull", "PhantomData", "std::marker::PhantomData"):
+            return Obj(s)
         nc = self.lookup_named_const(s, st)
         if nc is not None:
             return nc
